@@ -86,10 +86,11 @@ BOTS = ["all good", "it's {sunny} $today", "fine: yes", "ok"]
 D_ROUTES = ["llm", "predef", "next_llm", "pl", "act_llm", "next_predef"]
 
 
-def make_case(subset, spelling, n_out, vin, vout, user_noise, bot_noise, route, exc=False):
+def make_case(subset, spelling, n_out, vin, vout, user_noise, bot_noise, route, exc=False, warm=False):
     subset = [c for c in CATS if c in subset]
+    T = 1 if warm else 0
     turn = {
-        "user": f"{user_noise} {fakes.mk_user(0)}",
+        "user": f"{user_noise} {fakes.mk_user(T)}",
         "route": route,
         "in": vin,
         "out": vout,
@@ -97,8 +98,14 @@ def make_case(subset, spelling, n_out, vin, vout, user_noise, bot_noise, route, 
         "options": {"rails": _spell(subset, spelling), "log": {"activated_rails": True}},
     }
     if "dialog" not in subset and "output" in subset:
-        turn["bot"] = f"{fakes.mk_llm(0, SUPPLIED_K)} {bot_noise}"
-    return {"config": _cfg(n_out, exc), "turns": [turn], "subset": subset, "spelling": spelling, "api": "sync"}
+        turn["bot"] = f"{fakes.mk_llm(T, SUPPLIED_K)} {bot_noise}"
+    turns = [turn]
+    if warm:
+        # a first call of the same conversation with ALL rails (no `rails` option): the judged call then resends its messages,
+        # so whatever the instance remembers about that prefix (events cache) must not override the options of this call
+        turns = [{"user": f"hello there {fakes.mk_user(0)}", "route": "llm", "in": ["accept", "accept"], "out": ["accept"] * n_out, "body": "first words",
+                  "options": {"log": {"activated_rails": True}}}, turn]
+    return {"config": _cfg(n_out, exc), "turns": turns, "subset": subset, "spelling": spelling, "api": "sync"}
 
 
 def enumerate_cases(tier):
@@ -111,6 +118,8 @@ def enumerate_cases(tier):
                         for vout in _out_vectors("output" in subset, n_out):
                             n += 1
                             yield make_case(subset, spelling, n_out, vin, vout, USERS[n % len(USERS)], BOTS[n % len(BOTS)], D_ROUTES[n % len(D_ROUTES)])
+                            if n % 4 == 0:
+                                yield make_case(subset, spelling, n_out, vin, vout, USERS[n % len(USERS)], BOTS[n % len(BOTS)], D_ROUTES[n % len(D_ROUTES)], warm=True)
 
 
 @st.composite
@@ -122,7 +131,7 @@ def _case(draw):
     vout = [draw(pipeline.st_verdict("both")) for _ in range(n_out)]
     noise = st.one_of(st.text(pipeline.HOSTILE, min_size=1, max_size=14), st.sampled_from(pipeline.INTENT_EXAMPLES))
     bot = st.text(pipeline.TAME + "${}:\"", min_size=1, max_size=14)
-    return make_case(subset, spelling, n_out, vin, vout, draw(noise), draw(bot), draw(st.sampled_from(D_ROUTES)), exc=draw(st.sampled_from([False, False, False, True])))
+    return make_case(subset, spelling, n_out, vin, vout, draw(noise), draw(bot), draw(st.sampled_from(D_ROUTES)), exc=draw(st.sampled_from([False, False, False, True])), warm=draw(st.booleans()))
 
 
 def strategy(tier):
@@ -134,8 +143,11 @@ def strategy(tier):
 
 def _check(case, obs):
     cfg = case["config"]
-    spec = case["turns"][0]
-    o = obs.turns[0]
+    T = len(case["turns"]) - 1  # the judged call (the one before it, if any, is a warm-up call with all rails)
+    spec = case["turns"][T]
+    o = obs.turns[T]
+    if T and obs.turns[0]["raised"]:
+        return ok(skip="warm-up call raised: " + str(obs.turns[0]["raised"])[:80], labels=["warm-up-raised"])
     sel = set(case["subset"])
     I, D, R, O = ("input" in sel), ("dialog" in sel), ("retrieval" in sel), ("output" in sel)
     what = f"rails={spec['options']['rails']!r} in={spec['in']} out={spec['out']}" + (f" route={spec['route']}" if D else "") + (" +bot message" if spec.get("bot") else "")
@@ -147,6 +159,8 @@ def _check(case, obs):
             raise Violation("generate-raised", f"{what}: generate raised {o['raised'][:200]} instead of returning the specified reply")
         raise RuntimeError(f"generate raised: {o['raised']} ({what})")
     labels = ["subset=" + ("+".join(c[0] for c in case["subset"]) or "none"), "spelling=" + case["spelling"], f"out-rails={len(cfg['out'])}"]
+    if T:
+        labels.append("after-a-call-with-all-rails")
     if cfg["exc"]:
         labels.append("rails-exceptions")
     text = pipeline.reply_text(o)
@@ -165,12 +179,12 @@ def _check(case, obs):
         raise Violation("unselected-category-ran", f"{what}: dialog rails are not selected but the custom dialog action ran", {"cat": "dialog"})
 
     # 2. the input chain
-    mi = pipeline.model_input(cfg, spec, 0, selected=I)
+    mi = pipeline.model_input(cfg, spec, T, selected=I)
     prob = pipeline.chain_problem(mi["calls"], [e for e in trace if e["cat"] == "in"], what)
     if prob:
         raise Violation("input-rail-chain", prob)
     last_rw = max([i for i, c in enumerate(mi["calls"]) if c["verdict"] == "rewrite"], default=None)
-    user_now = spec["user"] if last_rw is None else fakes.rw_in_text(last_rw, 0)
+    user_now = spec["user"] if last_rw is None else fakes.rw_in_text(last_rw, T)
     expected_log = [("input", pipeline.rail_flow_name("in", i, cfg["in"][i]), c["verdict"] == "reject") for i, c in enumerate(mi["calls"])]
     out_entries = [e for e in trace if e["cat"] == "out"]
     nt_event = I and any(c["verdict"] != "accept" for c in mi["calls"])
@@ -200,7 +214,7 @@ def _check(case, obs):
             if text != user_now:
                 raise Violation("reply-not-user-text", f"{what}: expected the reply to be the user text {user_now!r}, got {o['reply']!r}"[:500])
         else:
-            mo = pipeline.model_output(cfg, spec, 0, SUPPLIED_K, selected=True)
+            mo = pipeline.model_output(cfg, spec, T, SUPPLIED_K, selected=True)
             prob = pipeline.chain_problem(mo["calls"][: mo["need"]], out_entries, what)
             if prob:
                 raise Violation("output-rail-chain", prob)
